@@ -153,8 +153,22 @@ def _case(draw):
         elif what == 'clear-scalar' and scal:
             case['key'] = scal[draw(st.integers(0, len(scal) - 1))]
         elif what == 'vdel':
-            allk = [k for k, v in cur['items']]
-            case['key'] = allk[draw(st.integers(0, len(allk) - 1))]
+            allk = [k for k, v in cur['items'] if not _is_call(v)]
+            if allk:
+                case['key'] = allk[draw(st.integers(0, len(allk) - 1))]
+                # priorities: an explicit !del that is outranked must leave the (possibly falsy) older entry alone
+                case['old_force'] = draw(st.integers(0, 2)) == 0
+                case['del_weak'] = draw(st.integers(0, 3)) == 0
+                case['del_form'] = draw(st.sampled_from(['valueless', 'valueless', 'scalar']))
+                if draw(st.integers(0, 2)) == 0:
+                    # make the older entry falsy (the remove-this-key logic looks at truthiness)
+                    tgt = [v for kk, v in cur['items'] if kk == case['key'] and type(kk) is type(case['key'])][0]
+                    falsy = draw(st.sampled_from([tdoc.sc(0), tdoc.sc(False), tdoc.sc('', q='single'), tdoc.sc(None), tdoc.mp([], flow=True), tdoc.sq([], flow=True)]))
+                    tgt.clear()
+                    tgt.update(falsy)
+            else:
+                case['what'] = 'clear-missing'
+                case['key'] = 'zz'
         else:
             case['what'] = 'clear-missing'
             case['key'] = 'zz'
@@ -406,7 +420,19 @@ def run_case(case):
                 labels.add('c-%s-onto-%s' % (focus['t'], type(old_at).__name__))
     else:
         what, key = case['what'], case['key']
-        node = tdoc.empty(tag='!clear') if what.startswith('clear') else tdoc.empty(**{'del': True})
+        if what.startswith('clear'):
+            node = tdoc.empty(tag='!clear')
+        else:
+            node = tdoc.empty(**{'del': True}) if case.get('del_form', 'valueless') == 'valueless' else tdoc.sc(5, **{'del': True})
+            if case.get('del_weak'):
+                node['prio'] = -1
+                node['mdstyle'] = 'braces'
+            if case.get('old_force'):
+                import copy
+                older = copy.deepcopy(older)
+                _get(older, path + [key])['prio'] = 1
+                t_old = tdoc.render(older)
+                old_ev = ev(older)
         newer = _wrap(path + [key], node)
         t_new = tdoc.render(newer)
         src = f'\nolder:\n{t_old}\nnewer:\n{t_new}'
@@ -418,9 +444,18 @@ def run_case(case):
             if status != 'ok' or O.canon_unordered(got) != O.canon_unordered(expected):
                 raise Violation(f'C04d: !clear at {path + [key]} must leave an empty container of the original kind; got {got!r}, expected {expected!r}{src}')
         elif what == 'vdel':
-            expected = replace_at(old_ev, path + [key], None, remove=True)
+            outranked = (1 if case.get('old_force') else 0) > (-1 if case.get('del_weak') else 0)
+            if outranked:
+                expected = old_ev
+                labels.add('d-outranked-del')
+                nontrivial = True
+            elif case.get('del_form', 'valueless') == 'valueless':
+                expected = replace_at(old_ev, path + [key], None, remove=True)
+            else:
+                expected = replace_at(old_ev, path + [key], 5)
             if status != 'ok' or O.canon_unordered(got) != O.canon_unordered(expected):
-                raise Violation(f'C04d: value-less !del at {path + [key]} must remove the key; got {got!r}, expected {expected!r}{src}')
+                raise Violation(f'C04d: explicit !del at {path + [key]} (outranked by the older entry: {outranked}) must '
+                                f'{"leave the older entry alone" if outranked else "remove the key / put its value"}; got {got!r}, expected {expected!r}{src}')
         else:
             if status == 'ok' or type(got).__name__ != 'PremergeError':
                 raise Violation(f'C04d: !clear at a {"missing path" if what == "clear-missing" else "scalar"} must be a PremergeError, got {got!r}{src}')
